@@ -177,9 +177,8 @@ theorem hConnection_private (me : Bool) (w : World) (proj connId pre post : Stri
   simp only
   by_cases he : (pj.kind == "electricalProjection") = true
   · simp only [he, ↓reduceIte]
-    cases h7 : alookup (w.get me).priv.projSyn proj with
-    | none => cases me <;> fin
-    | some syn => cases me <;> fin
+    cases hinst : (!pp.instances.isEmpty || !pq.instances.isEmpty) <;> cases w1 <;>
+      cases h7 : alookup (w.get me).priv.projSyn proj <;> cases me <;> fin
   · by_cases hc : (pj.kind == "continuousProjection") = true
     · simp only [he, hc, ↓reduceIte]
       cases h7 : alookup (w.get me).priv.projSynPre proj with
